@@ -58,7 +58,7 @@ impl<'a> CView<'a> {
                 }
                 Ev::Quiescent { .. } => quiescent.push((r.seq, r.t_ns)),
                 Ev::DispatchEnd { .. } => dispatch_end_seq = Some(r.seq),
-                Ev::PollStart { task: 0 } => dispatch_polls.push((r.seq, r.t_ns)),
+                Ev::PollStart { task: 0, .. } => dispatch_polls.push((r.seq, r.t_ns)),
                 _ => {}
             }
         }
